@@ -259,6 +259,51 @@ ODD = [
 ]
 
 
+def lexical_corners():
+    """every literal / comment / operator opening x what follows it (end of file, high and NUL bytes, quotes, newline), bare
+    and inside an otherwise complete program: the places where a lexer indexes a table or reads ahead with an unchecked byte"""
+    heads = ["'", "'\\", "'a", "\"", "\"abc", "\"abc\\", "\"\\", "|", "| c", "#", "#F", "1", "a", "a_", ":", "~", "<", ">", "-", "\\"]
+    tails = ["", "\x80", "\xe9", "\xff", "\x00", "\n", "'", "\"", "\\", "\x7f", "n'", "n\""]
+    out = []
+    for h in heads:
+        for t in tails:
+            out.append("proc main() is 0(" + h + t)
+            out.append("proc main() is 0(" + h + t + ") proc q() is skip")
+            out.append(h + t)
+    return out
+
+
+def size_corners():
+    """long tokens and long lists: fixed-size buffers, 8-bit length fields, positional indexing of formals by actuals"""
+    out = []
+    for n in (254, 255, 256, 257, 300, 1000, 5000):
+        out.append('proc main() is 0("' + "a" * n + '")')
+        out.append('func len(array s) is return s[0] proc main() is 0(len("' + "b" * n + '"))')
+    for n in (64, 255, 256, 1000, 4000):
+        out.append("var " + "v" * n + "; proc main() is " + "v" * n + " := 1")
+        out.append("proc " + "p" * n + "() is skip proc main() is " + "p" * n + "()")
+        out.append("proc main() is 0(" + "7" * n + ")")
+        out.append("proc main() is 0(#" + "F" * n + ")")
+    for n in (1, 5, 40, 200):
+        fs = ", ".join(f"val a{i}" for i in range(n))
+        out.append(f"proc p({fs}) is skip proc main() is p(" + ", ".join("1" for _ in range(n)) + ")")
+        out.append(f"proc p({fs}) is skip proc main() is p(" + ", ".join("1" for _ in range(n + 3)) + ")")
+        out.append(f"proc p({fs}) is skip proc main() is p(" + ", ".join("1" for _ in range(max(0, n - 1))) + ")")
+        out.append(f"func f({fs}) is return a0 proc main() is 0(f(" + ", ".join("f(" + ", ".join("2" for _ in range(n)) + ")" for _ in range(n)) + "))" if n <= 5 else
+                   f"func f({fs}) is return a0 proc main() is 0(f(" + ", ".join("3" for _ in range(n)) + "))")
+        out.append("proc main() is { " + "; ".join(f"var x{i}" for i in range(n)) + "; skip }")
+        out.append("proc main() is " + " ".join(f"var x{i};" for i in range(n)) + " x0 := 1")
+        out.append(" ".join(f"array g{i}[{i + 1}];" for i in range(n)) + " proc main() is g0[0] := 1")
+    for sz in ("199990", "199999", "200000", "200001", "1073741824", "2147483647", "2147483648", "4294967295", "4294967296", "0", "0 - 1", "1 - 2147483647"):
+        out.append(f"array a[{sz}]; proc main() is a[0] := 1")
+        out.append(f"array a[{sz}]; array b[{sz}]; proc main() is b[0] := a[0]")
+        out.append(f"proc p(array x) is x[0] := 1 array a[{sz}]; proc main() is p(a)")
+    return out
+
+
+ODD = ODD + lexical_corners() + size_corners()
+
+
 def tokenize(src):
     """coarse tokens of X source text (keeps strings, comments and unknown bytes as tokens)"""
     return re.findall(r'"(?:\\.|[^"\\])*"?|\'(?:\\.|[^\'\\])?\'?|\|[^\n]*|[A-Za-z][A-Za-z0-9_]*|#?[0-9A-Za-z]+|:=|~=|<=|>=|\s+|.', src, re.S)
